@@ -17,7 +17,8 @@ CONSTANTS MaxObj,      \* bound on heap size (allocation guard)
           IdxUse,      \* index kinds offered to index/slice in Next
           OpsUse,      \* in-place operators offered in Next
           ObjUse,      \* objects offered as target / right operand of in-place operators in Next ({} = all)
-          GrpUse       \* groups offered to the group actions in Next ({} = all)
+          GrpUse,      \* groups offered to the group actions in Next ({} = all)
+          TiesPool     \* TRUE: the integer pool object 6 holds <<2, 0, 2>> (a sort key with ties) instead of <<2, 0, 1>>
 
 VARIABLES heap, bufs, dgs, dss, res, hist, act
 vars == <<heap, bufs, dgs, dss, res, hist, act>>
@@ -48,7 +49,7 @@ Shares(a, b) == Cells(a) \cap Cells(b) # {}
 \* pool of pre-existing objects (tokens distinct inside every component, unsorted, no ties)
 Init ==
   /\ bufs = << Ints(<<3, 1, 2>>), Ints(<<20, 30, 10>>), Ints(<<7, 5>>), Ints(<<9>>),
-               Ints(<<100, 300, 200>>), Ints(<<4, 6, 5>>), Ints(<<2, 0, 1>>), Ints(<<500, 700, 100>>), Ints(<<6, 2, 4>>),
+               Ints(<<100, 300, 200>>), Ints(<<4, 6, 5>>), (IF TiesPool THEN Ints(<<2, 0, 2>>) ELSE Ints(<<2, 0, 1>>)), Ints(<<500, 700, 100>>), Ints(<<6, 2, 4>>),
                Ints(<<900, 900, 900>>),              \* constant rows: equal, element by element, to the 0-d object 4 after conversion - but of another shape
                Ints(<<600, 200, 400>>) >>            \* the float32 object 8 in another unit and in double precision: equal by content
   /\ heap = << mkArr(1, 3, U1("m"), "f8"), mkArr(2, 3, U1("s"), "f8"), mkArr(3, 2, U1("m"), "f8"), mkScal(4, U1("m"), "f8"),
@@ -269,6 +270,18 @@ DgSortByKey(g, k) ==
   /\ Len(heap) + Len(dgs[g].keys) <= MaxObj
   /\ Step([op |-> "sortkey", g |-> g, k |-> k]) /\ UNCHANGED dss
   /\ Permute(g, SortPerm(Vals(dgs[g].val[k], 1))) /\ res' = NoRes
+\* a key with ties: ANY permutation that orders the key is a correct answer (the statement asks for one permutation applied
+\* to every member, not for a particular tie-break).  Offered as the last step of a history only, so that no later step
+\* depends on which permutation the implementation chose.
+SortingPerms(s) == {p \in [1..Len(s) -> 1..Len(s)] : (\A i, j \in 1..Len(s) : i # j => p[i] # p[j])
+                                                    /\ \A i \in 1..(Len(s) - 1) : ~RLess(s[p[i + 1]], s[p[i]])}
+DgSortByKeyTies(g, k) ==
+  /\ En("sortkey") /\ HasKey(dgs[g], k) /\ ShapeG(heap, dgs[g]) # <<>> /\ Len(hist) = Depth - 1
+  /\ IsArr(dgs[g].val[k]) /\ ~NoTies(Vals(dgs[g].val[k], 1))
+  /\ Len(heap) + Len(dgs[g].keys) <= MaxObj
+  /\ \E p \in SortingPerms(Vals(dgs[g].val[k], 1)) :
+        /\ Step([op |-> "sortkey", g |-> g, k |-> k, alt |-> p]) /\ UNCHANGED dss
+        /\ Permute(g, p) /\ res' = NoRes
 DgSortByIdx(g, p) ==       \* p: 1-based source rows, a permutation or a selection with repeats of the same length
   /\ En("sortidx") /\ dgs[g].keys # <<>> /\ ShapeG(heap, dgs[g]) = <<Len(p)>>
   /\ Len(heap) + Len(dgs[g].keys) <= MaxObj
@@ -441,7 +454,7 @@ Next ==
   \/ \E o \in Os, how \in {"copy", "deepcopy"} : Copy(o, how)
   \/ \E o \in (IF ObjUse = {} THEN Os ELSE ObjUse \cap Os), ui \in 1..3 : ObjTo(o, ui)
   \/ \E o \in Os, c \in 1..3, src \in Os : VecSet(o, c, src)
-  \/ \E g \in Gs, k \in Keys : DgSortByKey(g, k)
+  \/ \E g \in Gs, k \in Keys : DgSortByKey(g, k) \/ DgSortByKeyTies(g, k)
   \/ \E g \in Gs, p \in {<<3, 1, 2>>, <<2, 1>>, <<2, 2, 1>>} : DgSortByIdx(g, p)
   \/ \E op \in OpsUse, o \in (IF ObjUse = {} THEN Os ELSE ObjUse \cap Os), rhs \in {0} \cup (IF ObjUse = {} THEN Os ELSE ObjUse \cap Os) :
          IOpArgsOk(o, rhs) /\ \E q \in (IF rhs # 0 /\ IsArr(rhs) THEN BOOLEAN ELSE {FALSE}) : IOpQ(op, o, rhs, q)
